@@ -207,14 +207,12 @@ func c13IsEvent(s gast.Stmt, c *c13Call, text string) bool {
 		}
 	case *gast.CallStmt:
 		if call, ok := x.X.(*gast.Call); ok && call.Recv == nil && (call.Name == "Forget" || call.Name == "Changed") {
+			// Forget takes a snippet: when no variable is spelled exactly like it, the engine forgets every
+			// expression whose text contains it (Forget("F.S") also reaches F.Sub.X). Any snippet
+			// contained in the call's text is therefore an invalidation event for the call.
 			name := call.Args[0].(*gast.Lit).S
-			if name == text {
+			if name != "" && strings.Contains(text, name) {
 				return true
-			}
-			for _, v := range c.Vars {
-				if v == name {
-					return true
-				}
 			}
 		}
 	}
@@ -384,7 +382,7 @@ func c13Run(c *val.Case) (*val.Report, []string, bool, error) {
 func TestC13(t *testing.T) {
 	col := stats.New("C13", "1-3 counted probe calls (F.P(id), F.PB(id), F.PV(id, <variable or sum of variables>), F.PS(id, <string variable>); one id per call text) placed with identical text in the conditions, right-hand sides and call statements of 1-6 rules inside varying surrounding expressions, runs of 1-30 cycles; invalidation events are generated explicitly (assignments to a variable occurring in the call's arguments, Forget/Changed naming the call text or such a variable) next to non-events (assignments to unrelated or similarly named locations, Forget of unrelated names). Oracle: the exact memo discipline as an automaton per call text - an invocation is allowed only if an invalidation event (or the start of Execute) happened since the previous invocation; within a firing the statement order of the fired rule gives the interleaving. Upper bound only (short-circuiting may evaluate less). Non-trivial: some call text was demanded at least twice in the run. Distinct by rule text + state.",
 		"plain field reads cannot be counted without instrumenting reflect; accessor-style probe methods stand in for them",
-		"non-event Forget names are chosen so that they are not substrings of a counted call's text (the engine's Forget matches by substring)")
+		"Forget/Changed take a snippet: every snippet contained in a call's text counts as an invalidation event for it (the engine matches by substring when no variable is spelled exactly like the snippet); non-event names are chosen so that they are not substrings of any counted call's text")
 	defer col.Flush()
 	check(t, 0, budget(6000, 80000), func(rt *rapid.T) {
 		g := genC13(rt)
